@@ -242,7 +242,8 @@ def c07(tier, seed, replay=None):
         return _replay("C07", replay)
     q = tier == "quick"
     # mix: sparse (indexing) and dense cotangents meeting at one value, differentiated 1..3 times in every mode sequence
-    fams = [("ho", 4, None), ("mix", 3, None), ("nest", 2, None), ("nestq", 3, 800) if q else ("nest", 3, None)]
+    # fault: higher-order / nested derivatives computed by a function that first recovers from a failed inner differentiation
+    fams = [("ho", 4, None), ("mix", 3, None), ("nest", 2, None), ("nestq", 3, 800) if q else ("nest", 3, None), ("fault", 2, None)]
     muts = [("ho", 3, MUT_GEQ)]
     t0 = time.time()
     v1, cov = run_agm("C07", tier, seed, fams, muts,
@@ -332,7 +333,8 @@ def c17(tier, seed, replay=None):
     if replay:
         return _replay("C17", replay)
     q = tier == "quick"
-    fams = [("ext1", 3 if q else 4, 1500 if q else None), ("ext2", 2 if q else 3, 1200 if q else 8000), ("ckpt", 2, None)]
+    # fault: "a missing rule raises" - and the program that catches that exception and goes on differentiating gets exact derivatives
+    fams = [("ext1", 3 if q else 4, 1500 if q else None), ("ext2", 2 if q else 3, 1200 if q else 8000), ("ckpt", 2, None), ("fault", 2, None)]
     t0 = time.time()
     v1, cov = run_agm("C17", tier, seed, fams, [],
                    "ext1: product primitive of arity 1..3 (thorough 4) x every non-empty subset of differentiated positions x every rule table over "
